@@ -771,7 +771,7 @@ MECHS = ["free", "pendulum", "double_pendulum", "slider", "pm_fixed_distance", "
 ATTACH = ["none", "gravity", "spring_h", "spring_c", "kelvin_voigt_c", "maxwell", "motor", "pd", "pid"]
 CONTACTS = ["none", "rest_mu0", "stick_mu", "slide_mu", "open_mu", "two_spheres", "two_spheres_slide", "accel_plane", "spin_offcentre"]
 INITS = ["rest", "spin"]
-INCONSISTENT = ["joint_velocity", "position_offset", "penetration", "approaching", "s2s_penetration"]
+INCONSISTENT = ["joint_velocity", "position_offset", "joint_offset", "penetration", "approaching", "s2s_penetration"]
 GRAV = 9.81
 
 
@@ -964,4 +964,12 @@ def build_c16(case):
         x.q0 = x._qref + np.array([0.05, -0.02, 0.03])
         system.add(x)
     prepare = None
+    if bad == "joint_offset" and tip is not None:
+        # after a first (consistent) assembly the tip body is moved and the system assembled again.  If the joint
+        # re-anchors itself at the new q0 the state is consistent again (the check measures this and counts the
+        # variant as trivial); if the joint keeps its frames from the first assembly the state must be rejected.
+        def prepare():
+            q = np.array(tip.q0, float).copy()
+            q[:3] = q[:3] * 1.02 + np.array([0.0, 0.02, 0.0])
+            tip.q0 = q
     return {"system": system, "mus": mus, "expect_raise": bad is not None, "prepare": prepare}
